@@ -1000,6 +1000,22 @@ def arange(*args):
     return ndarray.fresh(r, (len(r),), "i8")
 
 
+def tril_indices(n, k=0, m=None):
+    n = int(n)
+    m = n if m is None else int(m)
+    k = int(k)
+    rc = [(i, j) for i in builtins_range(n) for j in builtins_range(m) if j - i <= k]
+    return (ndarray.fresh([i for i, _ in rc], (len(rc),), "i8"), ndarray.fresh([j for _, j in rc], (len(rc),), "i8"))
+
+
+def triu_indices(n, k=0, m=None):
+    n = int(n)
+    m = n if m is None else int(m)
+    k = int(k)
+    rc = [(i, j) for i in builtins_range(n) for j in builtins_range(m) if j - i >= k]
+    return (ndarray.fresh([i for i, _ in rc], (len(rc),), "i8"), ndarray.fresh([j for _, j in rc], (len(rc),), "i8"))
+
+
 def repeat(v, repeats):
     if isinstance(v, ndarray):
         if v.ndim == 0:
